@@ -3,6 +3,9 @@ pub mod c03;
 pub mod c05;
 pub mod c06;
 pub mod c07;
+pub mod c08;
+pub mod c13;
+pub mod c14;
 pub mod c17;
 pub mod c19;
 pub mod selftest;
@@ -17,6 +20,9 @@ pub fn dispatch(name: &str, args: &[String]) -> i32 {
 		"c05" => c05::run(args),
 		"c06" => c06::run(args),
 		"c07" => c07::run(args),
+		"c08" => c08::run(args),
+		"c13" => c13::run(args),
+		"c14" => c14::run(args),
 		"c17" => c17::run(args),
 		"c19" => c19::run(args),
 		"replay" => replay(args),
@@ -44,6 +50,9 @@ fn replay(args: &[String]) -> i32 {
 		"c05" => c05::replay(&v["replay"]),
 		"c06" => c06::replay(&v["replay"]),
 		"c07" => c07::replay(&v["replay"]),
+		"c08" => c08::replay(&v["replay"]),
+		"c13" => c13::replay(&v["replay"]),
+		"c14" => c14::replay(&v["replay"]),
 		"c17" => c17::replay(&v["replay"]),
 		"c19" => c19::replay(&v["replay"]),
 		_ => {
